@@ -218,6 +218,78 @@ def rustc_level(chk, tier):
     chk.notes["rustc_level"] = {"items": len(texts), "layouts": len(layouts), "item_expansions_compared": n_cmp}
 
 
+FEATURE_OF = {"Mul": "mul", "Div": "mul", "Shl": "mul", "MulAssign": "mul_assign", "RemAssign": "mul_assign", "ShrAssign": "mul_assign",
+              "TryInto": "try_into", "Error": "error", "FromStr": "from_str", "From": "from", "Debug": "debug", "Display": "display",
+              "AsRef": "as_ref", "Into": "into"}
+
+
+def per_feature_level(chk, tier):
+    """C19 x C20: the expansion is the same in every compiler process ALSO when derive_more is built with a single
+    feature (what is compiled in - helper modules, type aliases, hashers - depends on the feature set). For each chosen
+    feature: derive_more with that feature alone (no std), the stress inputs of that feature's derives, one cargo build
+    and then the same rustc command in fresh processes; outputs are compared item by item."""
+    import shlex
+    import concurrent.futures as cf
+    feats = ["mul_assign", "try_into", "error"] if tier == "quick" else ["mul_assign", "try_into", "error", "mul", "from_str", "debug", "from"]
+    runs = 3 if tier == "quick" else 6
+    inputs = special_inputs()
+
+    def one(feat):
+        items = [(d, it) for d, it in inputs if FEATURE_OF.get(d) == feat][:24]
+        if not items:
+            return feat, 0, None
+        src = "#![allow(dead_code)]\n" + "\n".join(f"mod m{i} {{ #[derive(derive_more::{d})] {it} }}" for i, (d, it) in enumerate(items)) + "\nfn main() {}\n"
+        name = f"c19_feat_{feat}"
+        dpath = vlib.write_probe(name, src, features=(feat,), default_features=False)
+        env = vlib.cargo_env({"CARGO_TARGET_DIR": os.path.join(vlib.BUILD, f"target-c19f-{feat}")})
+        cmdline, first = None, None
+        for attempt in range(2):
+            p = subprocess.run(["cargo", "+nightly", "rustc", "--offline", "-v", "--", "-Zunpretty=expanded"], cwd=dpath, env=env,
+                               stdout=subprocess.PIPE, stderr=subprocess.PIPE, timeout=1800)
+            if p.returncode != 0 or not p.stdout:
+                raise vlib.ToolError(f"cargo rustc -Zunpretty=expanded failed for feature {feat}: {p.stderr.decode()[-800:]}")
+            first = p.stdout
+            for line in p.stderr.decode().splitlines():
+                if line.strip().startswith("Running `") and f"--crate-name {name}" in line:
+                    cmdline = shlex.split(line.strip()[len("Running `"):-1])
+            if cmdline:
+                break
+            os.utime(os.path.join(dpath, "src", "main.rs"))
+        if not cmdline:
+            raise vlib.ToolError("could not learn rustc's command line from cargo -v")
+        keep = [cmdline[0], "--crate-name", name, "--edition=2021", "--crate-type", "bin", "-Zunpretty=expanded", os.path.join(dpath, "src", "main.rs")]
+        for j, a in enumerate(cmdline):
+            if a in ("-L", "--extern"):
+                keep += [a, cmdline[j + 1]]
+        outs = [first]
+        for _ in range(runs):
+            q = subprocess.run(keep, cwd=dpath, env=env, stdout=subprocess.PIPE, stderr=subprocess.PIPE, timeout=600)
+            if q.returncode != 0 or not q.stdout:
+                raise vlib.ToolError(f"rustc -Zunpretty=expanded failed for feature {feat}: {q.stderr.decode()[-800:]}")
+            outs.append(q.stdout)
+        bad = None
+        for o in outs[1:]:
+            if o != outs[0]:
+                a, b = outs[0].decode("utf-8", "replace").splitlines(), o.decode("utf-8", "replace").splitlines()
+                n = next((n for n, (x, y) in enumerate(zip(a, b)) if x != y), min(len(a), len(b)))
+                bad = (a[n][:200] if n < len(a) else "", b[n][:200] if n < len(b) else "")
+                break
+        return feat, len(items) * len(outs), bad
+    with cf.ThreadPoolExecutor(max_workers=4) as ex:
+        results = list(ex.map(one, feats))
+    done = {}
+    for feat, n, bad in results:
+        chk.cov["evaluations"] += n
+        chk.cov["traces_validated_against_impl"] += n
+        done[feat] = n
+        if bad:
+            chk.deviation(f"rustc:feature:{feat}", f"with derive_more built with the feature `{feat}` alone, the same items expand differently in "
+                          f"different compiler processes (first differing line: {bad[0]!r} vs {bad[1]!r})", case={"feature": feat},
+                          expected="identical -Zunpretty=expanded output in every process", observed="differs",
+                          tags={"kind": "nondeterministic", "feature": feat})
+    chk.notes["per_feature_level"] = done
+
+
 def run(chk, tier, seed, replay):
     chk.assumptions += ["fresh processes differ in their RandomState seeds (std), so a seeded hash collection shows as differing digests",
                         "digest = sha256 of the proc_macro2 token text of the expansion"]
@@ -298,6 +370,7 @@ def run(chk, tier, seed, replay):
     # vanishes from the pretty-printed expansion, which must therefore stay byte-identical)
     if not replay:
         rustc_level(chk, tier)
+        per_feature_level(chk, tier)
     chk.cov["rule"] = ("inputs: hashed-collection stress inputs + one per code path of every derive + a twin of each with the roles of "
                        "its names exchanged (generic <-> concrete); K fresh processes x orders x "
                        "repeats; non-trivial = inputs iterating hashed collections")
